@@ -936,11 +936,8 @@ def unbroadcast_f(target, f):
 def unbroadcast_einsum(x, target_meta, subscript):
     if Ellipsis not in subscript:
         return x
-    elif subscript[0] == Ellipsis:
-        return unbroadcast(x, target_meta, 0)
-    elif subscript[-1] == Ellipsis:
-        return unbroadcast(x, target_meta, -1)
     else:
+        # broadcast axes are prepended to the operand's own "..." axes, i.e. they sit where the Ellipsis starts
         return unbroadcast(x, target_meta, subscript.index(Ellipsis))
 
 
